@@ -13,82 +13,7 @@ verus! {
 //@include prelude/er.rs
 //@source yui-matrix/src/dense/lll.rs
 
-pub uninterp spec fn mmul(a: int, b: int) -> int;
-pub uninterp spec fn mid() -> int;
-pub uninterp spec fn e_swap(i: int, j: int) -> int;
-pub uninterp spec fn e_scale(i: int, u: int) -> int;
-/// I + r e_{a,b}  (a != b): left multiplication adds r * row_b to row_a, right multiplication adds r * col_a to col_b
-pub uninterp spec fn e_shear(a: int, b: int, r: int) -> int;
-#[verifier::external_body] pub proof fn mx_assoc(a: int, b: int, c: int) ensures mmul(mmul(a, b), c) == mmul(a, mmul(b, c)) {}
-#[verifier::external_body] pub proof fn mx_id(a: int) ensures mmul(mid(), a) == a, mmul(a, mid()) == a {}
-#[verifier::external_body] pub proof fn mx_swap(i: int, j: int) ensures mmul(e_swap(i, j), e_swap(i, j)) == mid() {}
-#[verifier::external_body] pub proof fn mx_scale(i: int, u: int, w: int) requires rmul(u, w) == r1()
-    ensures mmul(e_scale(i, u), e_scale(i, w)) == mid(), mmul(e_scale(i, w), e_scale(i, u)) == mid() {}
-#[verifier::external_body] pub proof fn mx_shear(a: int, b: int, r: int) requires a != b
-    ensures mmul(e_shear(a, b, r), e_shear(a, b, rneg(r))) == mid(), mmul(e_shear(a, b, rneg(r)), e_shear(a, b, r)) == mid() {}
-
-pub struct Mat { pub m: Ghost<int> }
-/// stand-ins for nalgebra views of lambda (their effect on lambda is not tracked)
-pub struct Inner { pub g: Ghost<int> }
-pub struct NView { pub g: Ghost<int> }
-impl Inner {
-    #[verifier::external_body] pub fn column_mut(&mut self, j: usize) -> (r: NView) { unimplemented!() }
-    #[verifier::external_body] pub fn row_mut(&mut self, j: usize) -> (r: NView) { unimplemented!() }
-}
-impl NView {
-    #[verifier::external_body] pub fn swap_rows(&mut self, i: usize, j: usize) { unimplemented!() }
-    #[verifier::external_body] pub fn swap_columns(&mut self, i: usize, j: usize) { unimplemented!() }
-}
-impl Mat {
-    #[verifier::external_body] pub fn swap_rows(&mut self, i: usize, j: usize) ensures final(self).m@ == mmul(e_swap(i as int, j as int), old(self).m@) { unimplemented!() }
-    #[verifier::external_body] pub fn swap_cols(&mut self, i: usize, j: usize) ensures final(self).m@ == mmul(old(self).m@, e_swap(i as int, j as int)) { unimplemented!() }
-    #[verifier::external_body] pub fn mul_row(&mut self, i: usize, u: &ER) ensures final(self).m@ == mmul(e_scale(i as int, u.v()), old(self).m@) { unimplemented!() }
-    #[verifier::external_body] pub fn mul_col(&mut self, i: usize, u: &ER) ensures final(self).m@ == mmul(old(self).m@, e_scale(i as int, u.v())) { unimplemented!() }
-    /// row_j += r * row_i
-    #[verifier::external_body] pub fn add_row_to(&mut self, i: usize, j: usize, r: &ER) ensures final(self).m@ == mmul(e_shear(j as int, i as int, r.v()), old(self).m@) { unimplemented!() }
-    /// col_j += r * col_i
-    #[verifier::external_body] pub fn add_col_to(&mut self, i: usize, j: usize, r: &ER) ensures final(self).m@ == mmul(old(self).m@, e_shear(i as int, j as int, r.v())) { unimplemented!() }
-    #[verifier::external_body] pub fn at(&self, i: usize, j: usize) -> (r: &ER) { unimplemented!() }
-    #[verifier::external_body] pub fn set_at(&mut self, i: usize, j: usize, v: ER) { unimplemented!() }
-    #[verifier::external_body] pub fn add_at(&mut self, i: usize, j: usize, v: ER) { unimplemented!() }
-    #[verifier::external_body] pub fn inner_mut(&mut self) -> (r: Inner) { unimplemented!() }
-    #[verifier::external_body] pub fn ncols(&self) -> (r: usize) { unimplemented!() }
-}
-impl ER {
-    /// LLLRing::conj, norm (only used for the untracked lambda / det updates)
-    #[verifier::external_body] pub fn conj(&self) -> (r: ER) { unimplemented!() }
-    #[verifier::external_body] pub fn norm(&self) -> (r: ER) { unimplemented!() }
-}
-
-//@item struct/LLLData subst=Mat<R>:Mat,Vec<R>:Vec<ER>
-
-pub open spec fn opt(o: Option<Mat>) -> int { o.unwrap().m@ }
-pub open spec fn p_ok(s: LLLData, a0: int) -> bool {
-    (s.p.is_some() ==> s.target.m@ == mmul(opt(s.p), a0))
-    && (s.p.is_some() && s.pinv.is_some() ==> mmul(opt(s.p), opt(s.pinv)) == mid() && mmul(opt(s.pinv), opt(s.p)) == mid())
-}
-/// state after the row operation E (inverse E1)
-pub open spec fn row_op(s0: LLLData, s1: LLLData, e: int, e1: int) -> bool {
-    s0.p.is_some() == s1.p.is_some() && s0.pinv.is_some() == s1.pinv.is_some() && s1.step == s0.step
-    && s1.target.m@ == mmul(e, s0.target.m@)
-    && (s0.p.is_some() ==> opt(s1.p) == mmul(e, opt(s0.p))) && (s0.pinv.is_some() ==> opt(s1.pinv) == mmul(opt(s0.pinv), e1))
-}
-pub proof fn lemma_row_op_keeps(s0: LLLData, s1: LLLData, e: int, e1: int)
-    requires row_op(s0, s1, e, e1), s0.pinv.is_some() ==> (mmul(e, e1) == mid() && mmul(e1, e) == mid())
-    ensures forall|a0: int| p_ok(s0, a0) ==> p_ok(s1, a0)
-{
-    assert forall|a0: int| p_ok(s0, a0) implies p_ok(s1, a0) by {
-        if s0.p.is_some() {
-            let p = opt(s0.p);
-            mx_assoc(e, p, a0);
-            if s0.pinv.is_some() {
-                let p1 = opt(s0.pinv);
-                mx_assoc(e, p, mmul(p1, e1)); mx_assoc(p, p1, e1); mx_id(e1);
-                mx_assoc(p1, e1, mmul(e, p)); mx_assoc(e1, e, p); mx_id(p);
-            }
-        }
-    }
-}
+//@include units/lll_prims/model.inc
 
 impl LLLData {
     pub fn mul_row(&mut self, i: usize, r: &ER)
@@ -136,14 +61,14 @@ impl LLLData {
     /// b[k-1] <-> b[k]
     pub fn swap(&mut self, k: usize)
         requires k < old(self).det@.len(), old(self).det@.len() <= usize::MAX - 1,
-            // valid Gram-Schmidt data: the (k-1)-st Gram determinant is non-zero (rows are independent)
-            k > 0 ==> old(self).det@[k - 1].v() != r0(),
 //@if B
             k > 0,
+            // valid Gram-Schmidt data: the (k-1)-st Gram determinant is non-zero (rows are independent); in variant A a division by zero does not return
+            old(self).det@[k - 1].v() != r0(),
 //@endif
         ensures k > 0, row_op(*old(self), *final(self), e_swap(k - 1, k as int), e_swap(k - 1, k as int)),
             forall|a0: int| p_ok(*old(self), a0) ==> p_ok(*final(self), a0),
-    //@body impl/LLLData/swap ring=1 index2=1 for_range=1 machine=i,j,k,m subst=R:ER loops=2
+    //@body impl/LLLData/swap ring=1 index2=1 for_range=1 machine=i,j,k,m subst=R:ER loops=2 q=d1:z
     //@+ loop 0 header
     //@| for j in 0..k-1
     //@+ loop 1 header
@@ -158,7 +83,7 @@ impl LLLData {
     //@|     s0.p.is_some() ==> opt(self.p) == mmul(e_swap(k - 1, k as int), opt(s0.p)),
     //@|     s0.pinv.is_some() ==> opt(self.pinv) == mmul(opt(s0.pinv), e_swap(k - 1, k as int)),
     //@+ loop 1
-    //@| invariant k > 0, k < self.det@.len(), d1.v() != r0(), self.target.m@ == mmul(e_swap(k - 1, k as int), s0.target.m@), self.step == s0.step, self.det == s0.det,
+    //@| invariant k > 0, k < self.det@.len(), zdiv_ok(d1.v()), self.target.m@ == mmul(e_swap(k - 1, k as int), s0.target.m@), self.step == s0.step, self.det == s0.det,
     //@|     s0.p.is_some() == self.p.is_some() && s0.pinv.is_some() == self.pinv.is_some(),
     //@|     s0.p.is_some() ==> opt(self.p) == mmul(e_swap(k - 1, k as int), opt(s0.p)),
     //@|     s0.pinv.is_some() ==> opt(self.pinv) == mmul(opt(s0.pinv), e_swap(k - 1, k as int)),
